@@ -102,7 +102,7 @@ class ParDoSpec(SeqSpec):
         is_map = cfg["api"] in ("map", "mapctx")
         cf = "(mkCfg %s %s %d (%d)%%Z %d)" % (self._b(is_ctx), self._b(is_map), n, cfg["par"], cfg["gmp"])
         gset = set(cfg.get("gated", []))
-        gated = "[" + "; ".join(self._b(i in gset) for i in range(n)) + "]"
+        gated = ("[" + "; ".join(self._b(i in gset) for i in range(n)) + "]") if n > 0 else "(@nil bool)"
         evs = []
         for e in obs["obs"]:
             k = e[0]
@@ -126,7 +126,7 @@ class ParDoSpec(SeqSpec):
             elif k == "quiesce":
                 if e[1]:
                     evs.append("EQuiesce")
-        return "(%s, %s, [%s])" % (cf, gated, "; ".join(evs))
+        return "(%s, %s, %s)" % (cf, gated, ("[" + "; ".join(evs) + "]") if evs else "(@nil ev)")
 
     # ------------------------------------------------------------------ direct oracle
     def oracle(self, case, obs):
